@@ -436,6 +436,18 @@ def _mk():
 
 
 CONTRACTS = _mk()
+
+
+def _c10():
+    """'conversion' is one of the operations of the statement: the converted NUMBERS must be the ones the new labels
+    describe - C10's contracts on get_conversion / in_units (value = ratio of the unit meanings, labels, shape, frame),
+    re-run under this property."""
+    from contracts import C10
+    from contracts.common import relabelled
+    return relabelled([c for c in C10.CONTRACTS if type(c).__name__ in ("Conversion", "InUnits")], "C11")
+
+
+CONTRACTS += _c10()
 TRUSTED = [
     "labels range over representatives of the classes the code distinguishes by substring ('ratio', 'percent', ' each month', ' per month', other); series have literal length 3 (1 for the predicate equivalence) - the label logic never inspects the length",
     "machine floats treated as mathematical reals; numpy element-wise models; conversion (in_units) is C10",
